@@ -1,6 +1,24 @@
 """C18 Nagle coalescing: truth table of the gate over {nagle, full-sized, in-flight} and the provenance of those atoms."""
 from .common import *
-from .c05 import SPLIT
+from .c05 import SPLIT, window_budget_local
+
+
+def split_vars(sp):
+    """the segmentation loop's variables, identified by shape: ps = the local passed to Segments::enqueue (a min(..)), mp = the
+    argument of that min which is itself min(next_segment_size(), window budget), rem = the other argument"""
+    enq = [t for t in sp.calls() if call_matches(t, ("stream_tx_segments::Segments::enqueue",))]
+    if len(enq) != 1:
+        return None
+    ps = copy_root(sp, enq[0].args[1])
+    d = sp.unique_def(ps) if ps is not None else None
+    if not (isinstance(d, Term) and call_matches(d, ("Ord::min",))):
+        return None
+    roots = [copy_root(sp, d.args[0]), copy_root(sp, d.args[1])]
+    mp = [r for r in roots if r is not None and isinstance(sp.unique_def(r), Term) and call_matches(sp.unique_def(r), ("Ord::min",))]
+    if len(mp) != 1:
+        return None
+    rem = [r for r in roots if r != mp[0]]
+    return {"ps": ps, "mp": mp[0], "rem": rem[0] if rem else None}
 
 
 def atom_of(body, term):
@@ -12,8 +30,8 @@ def atom_of(body, term):
         # operand true <=> is_empty() xor neg ; atom i = !is_empty
         return ("i", neg)
     if c.kind == "bin" and c.op in ("Eq", "Ne"):
-        na, nb = copied_from(body, c.a), copied_from(body, c.b)
-        if {na, nb} == {"payload_size", "max_payload_size"}:
+        v = split_vars(body)
+        if v is not None and {copy_root(body, c.a), copy_root(body, c.b)} == {v["ps"], v["mp"]}:
             val = (c.op == "Eq")
             return ("f", val != neg)
     return None
@@ -81,16 +99,15 @@ def c18_2(R):
     F = R.facts
     sp = R.body(SPLIT)
 
-    def local(name):
-        ls = [i for i, l in enumerate(sp.locals) if l["name"] == name and isinstance(sp.unique_def(i), Term) and call_matches(sp.unique_def(i), ("Ord::min",))]
-        return ls[0] if len(ls) == 1 else None
-    mp, ps = local("max_payload_size"), local("payload_size")
-    R.require(mp is not None and ps is not None, "locals max_payload_size / payload_size defined by Ord::min")
+    v = split_vars(sp)
+    R.require(v is not None, "enqueue(payload) with payload = min(min(..), ..)")
+    mp, ps = v["mp"], v["ps"]
+    rw = window_budget_local(sp)
     d = sp.unique_def(mp)
     ok1 = False
     if isinstance(d, Term) and call_matches(d, ("Ord::min",)):
         s0, s1 = value_sources(sp, d.args[0]), trace(sp, d.args[1])
-        if ("call", "mtu::SegmentSizes::next_segment_size") in s0 and s1.kind == "multi" and sp.local_name(s1.root[1]) == "remote_window_remaining":
+        if ("call", "mtu::SegmentSizes::next_segment_size") in s0 and s1.kind == "multi" and rw is not None and s1.root[1] == rw:
             ok1 = True
     if ok1:
         R.ok("full-size=min(ss,window)", SPLIT, "max_payload_size = min(next_segment_size(), remote_window_remaining)")
@@ -99,7 +116,10 @@ def c18_2(R):
     d = sp.unique_def(ps)
     ok2 = False
     if isinstance(d, Term) and call_matches(d, ("Ord::min",)):
-        if {copied_from(sp, d.args[0]), copied_from(sp, d.args[1])} == {"max_payload_size", "remaining"}:
+        rem = v["rem"]
+        # remaining: decremented by every segment, starts at tx_len - segmented_len
+        dec = rem is not None and any(isinstance(x, Stmt) and (lambda lu: lu and lu[0] == rem and lu[1] == "-=")(local_update(sp, x)) for x in sp.all_defs(rem))
+        if dec:
             ok2 = True
     if ok2:
         R.ok("payload=min(full,remaining)", SPLIT)
